@@ -13,8 +13,9 @@ fn corpus() -> Vec<&'static str> {
 }
 fn optsets() -> Vec<Options> { vec![Options::default(), Options::elisp()] }
 
-fn cases(_ob: &str) -> Vec<String> {
+fn cases(ob: &str) -> Vec<String> {
     let mut out = vec![];
+    if let Some(seed) = crate::gen::thorough_seed(ob) { for t in crate::gen::texts(seed ^ 11, 400, false) { for oi in 0..2 { out.push(format!("spanx:{}:{}", crate::hex(t.as_bytes()), oi)); } } }
     for ci in 0..corpus().len() { for oi in 0..optsets().len() { out.push(format!("span:{}:{}", ci, oi)); } }
     out
 }
@@ -84,7 +85,8 @@ fn spans(d: &Datum) -> Vec<Span> {
 
 fn check(case: &str) -> Option<String> {
     let p: Vec<&str> = case.split(':').collect();
-    let text = *corpus().get(p.get(1)?.parse::<usize>().ok()?)?;
+    let owned: String;
+    let text: &str = if p[0].ends_with('x') { owned = String::from_utf8(crate::unhex(p.get(1)?)).ok()?; &owned } else { *corpus().get(p.get(1)?.parse::<usize>().ok()?)? };
     let o = optsets().get(p.get(2)?.parse::<usize>().ok()?)?.clone();
     let input = text.as_bytes();
     let mut ps = Parser::from_str_custom(text, o.clone());
